@@ -25,11 +25,11 @@ static QJsonObject op_json(const FOp &o)
             j["days"] = o.days;
         if (o.wj)
             j["wj"] = o.wj;
-        if (o.rmobst)
-            j["rmobst"] = o.rmobst;
         if (o.to)
             j["to"] = o.to;
     }
+    if (o.rmobst)
+        j["rmobst"] = o.rmobst;
     if (o.crash_b >= 0) {
         j["crash_b"] = o.crash_b;
         if (o.crash_torn)
